@@ -117,7 +117,7 @@ class Batch:
         if self.cfg == 'g2w':
             c.append('--wild')
         if self.cfg == 'vg':
-            c = ['valgrind', '-q', '--error-exitcode=77', '--errors-for-leak-kinds=none', '--leak-check=no'] + c
+            c = ['valgrind', '-q', '--error-exitcode=77', '--errors-for-leak-kinds=none', '--leak-check=no'] + c + ['--no-rlimit']
         return c
 
     def worker(self, w, W):
@@ -221,6 +221,12 @@ def crash_detail(rc, stderr):
         return 'valgrind:' + SLUG.sub('_', m.group(1))[:50]
     if 'malloc' in stderr or 'free()' in stderr or 'corrupted' in stderr:
         return 'heap_corruption'
+    if 'allocation-size-too-big' in stderr or 'exceeds maximum supported size' in stderr:
+        return 'asan:allocation-size-too-big'
+    if 'hard rss limit' in stderr.lower():
+        return 'asan:rss-limit-exceeded'
+    if rc == -14:
+        return 'hang:watchdog'
     if rc < 0:
         return 'signal%d' % (-rc)
     return 'exit%d' % rc
@@ -238,7 +244,7 @@ def last_traced_op(stderr):
     return k, cell
 
 
-def run_plan(cfg, plan, trace=False, timeout=600):
+def run_plan(cfg, plan, trace=False, timeout=400):
     """Fresh process, one plan. Returns outcome dict: cls ('ok' | violation class | crash class), digest, rc, stderr, result."""
     os.makedirs(WORK, exist_ok=True)
     path = os.path.join(WORK, 'plan.%d.%d.json' % (os.getpid(), threading.get_ident()))
@@ -250,7 +256,7 @@ def run_plan(cfg, plan, trace=False, timeout=600):
     if cfg == 'g2w':
         c.append('--wild')
     if cfg == 'vg':
-        c = ['valgrind', '-q', '--error-exitcode=77', '--leak-check=no'] + c
+        c = ['valgrind', '-q', '--error-exitcode=77', '--leak-check=no'] + c + ['--no-rlimit']
     try:
         p = subprocess.run(c, stdout=subprocess.PIPE, stderr=subprocess.PIPE, text=True, errors='replace', timeout=timeout)
         rc, out, err = p.returncode, p.stdout, p.stderr
